@@ -1,6 +1,7 @@
 package main
 
 import (
+	"regexp"
 	"encoding/json"
 	"fmt"
 	"os"
@@ -26,6 +27,9 @@ type KnownFinding struct {
 	Status    string `json:"status"` // known | fixed
 	Rule      string `json:"rule"`
 	Construct string `json:"construct"`
+	// ConstructRe, when set, identifies the finding by the failing operands rather than by the enclosing
+	// function (which a helper extraction changes): a regular expression over the obligation instance.
+	ConstructRe string `json:"construct_re,omitempty"`
 	What      string `json:"what"`
 	Input     string `json:"input,omitempty"`
 	Commit    string `json:"commit,omitempty"`
@@ -162,6 +166,9 @@ func (c *Ctx) Finish(writeEvidence bool) int {
 			total++
 			distinct[o.Key()] = true
 			if _, ok := knownIdx[o.Key()]; ok && o.Status == "violated" {
+				knownHit = append(knownHit, o)
+			} else if k, ok := matchKnownRe(known, c.Prop, o); ok && o.Status == "violated" {
+				knownIdx[o.Key()] = k
 				knownHit = append(knownHit, o)
 			} else {
 				viol = append(viol, o)
@@ -308,3 +315,15 @@ func (c *Ctx) writeEvidence(total, discharged, distinct, nviol int, knownHit []O
 }
 
 var procStart = time.Now()
+
+func matchKnownRe(known []KnownFinding, prop string, o Obligation) (KnownFinding, bool) {
+	for _, k := range known {
+		if k.Property != prop || k.Status != "known" || k.ConstructRe == "" || k.Rule != o.Rule {
+			continue
+		}
+		if re, err := regexp.Compile(k.ConstructRe); err == nil && re.MatchString(o.Instance) {
+			return k, true
+		}
+	}
+	return KnownFinding{}, false
+}
